@@ -26,6 +26,8 @@ def extra_entries():
     add('ActNorm/img', lambda: _init_actnorm(T.ActNorm(2), [2, 2, 3]), [2, 2, 3])
     add('ActNormFresh/3', lambda: T.ActNorm(3), [3])          # never initialised: evaluation mode must not initialise it
     add('BatchNormFresh/3', lambda: T.BatchNorm(3), [3], extra={'tol': 1e-4})
+    add('BatchNormTrain/3', lambda: T.BatchNorm(3), [3], extra={'train': True, 'offset': 10.0, 'spread': 0.01, 'tol': 1e-4})
+    add('ActNormTrainInit/3', lambda: T.ActNorm(3), [3], extra={'train': True, 'offset': -4.0, 'spread': 0.1, 'tol': 1e-4})
     add('OneByOneConvolution', lambda: T.OneByOneConvolution(3, identity_init=False), [3, 2, 2])
     def big(cls, f, scale, **kw):
         def build():
